@@ -10,6 +10,7 @@ CONSTANTS GridLen = 6
           Mults = {2}
           Counts1 = {1, 3}
           Counts2 = {1, 2}
+          CaseSamples = 3
 INVARIANTS H36_Exact H36_Done H38_TotalsConserved H38_Ordered H38_LastWindow HCtrGaugeIsLast StepsAgreeWithAlgo
 PROPERTY AlwaysProgress
 CHECK_DEADLOCK TRUE
